@@ -5,4 +5,9 @@ CONSTANTS
   AllCursors = FALSE
   Glue = {"sp", "nl", "ind", "blank"}
   ParamMax = 2
+  LOpen = {"star", "star2", "us", "us2", "tick", "tick2", "linkopen", "roleopen", "mystopen", "lt"}
+  LFill = {"txt", "mb", "sp"}
+  LSpan = {"code", "link", "mystrole", "role", "math", "javadoc", "em", "strong", "autolink", "rstlink", "html"}
+  LSep = {"nl", "ind", "blank"}
+  LFollow = {"txt", "mb", "heading", "code", "em", "list", "row", "star"}
 INVARIANTS Emit
